@@ -277,20 +277,14 @@ theorem pg_readEnv : ∀ name args pos skip tol mode ts e rest,
       exact s1
     · rw [if_neg ht] at h; cases h
   · rw [if_neg herr] at h
-    cases hs : (readSpacer (ts1.drop 2)).2 with
-    | nil => rw [hs] at h; cases h
-    | cons o r3 =>
-      rw [hs] at h
+    cases ts1 with
+    | nil => cases h
+    | cons t1 r1 =>
       simp only at h
-      cases hk : gkindOfBegin o.cat with
-      | none => rw [hk] at h; cases h
-      | some k =>
-        rw [hk] at h
-        simp only at h
-        obtain ⟨g, ts2, ha, h⟩ := Res.bind_eq_ok.mp h
-        simp only [Except.ok.injEq, Prod.mk.injEq] at h
-        obtain ⟨_, rfl⟩ := h
-        exact ((s1.drop 2).trans (Suf.afterSpacer hs).suf).trans (pA _ _ _ _ _ _ _ ha)
+      obtain ⟨na, ts2, hc, h⟩ := Res.bind_eq_ok.mp h
+      simp only [Except.ok.injEq, Prod.mk.injEq] at h
+      obtain ⟨_, rfl⟩ := h
+      exact (s1.trans Suf.tail).trans (pC _ _ _ _ _ _ _ hc).1
 
 theorem pg_readEnvBody : ∀ skip tol mode ts be rest,
     readEnvBody (f+1) skip tol mode ts = .ok (be, rest) → Suf ts rest := by
